@@ -20,19 +20,19 @@ CLAIMED = {
          "trusts sync.Mutex semantics and go/ssa"),
  "C08": ("static analysis: origin (alias) analysis + linear-inequality abstract interpretation",
          "for Payload of every rtp.Payloader implementation: no write whose destination may be the caller's buffer, every returned fragment freshly allocated, no retained state pointing into the input, and all panic obligations of the payloaders and their closures/helpers proved or listed as assumed (AV1 and H265 aggregation arithmetic)",
-         "the MTU bound for AV1 and H265 aggregation is not decided; assumed entries are listed with reasons in the evidence"),
+         "fragment <= MTU is a linear contract at every append of a fragment (VP8, VP9, H264, H265 single/FU, G711/G722 proved; H265 aggregation assumed with the sum argument; AV1 grows fragments in place and is not covered); assumed entries are listed with reasons in the evidence"),
  "C09": ("static analysis: linear-inequality abstract interpretation + must-write dataflow + origin analysis",
          "no-panic obligations for Unmarshal/IsPartitionHead/IsPartitionTail of every rtp.Depacketizer and the deprecated AV1 path for any byte string and receiver state; per-packet decoders (VP8, VP9, H265, Opus) define every decoded field on every success path; carried buffers of the stateful depacketizers never alias an input",
          "six obligations assumed (LEB128 value < 2^56, a relation lost by summarisation); result equality on reuse is decided through its cause"),
  "C17": ("static analysis: linear-inequality abstract interpretation + must-write dataflow",
          "Marshal/Unmarshal of the five fixed-size extension codecs never panic for any input length (all obligations proved) and every decoded field is defined on every success path (receiver-independent result)",
-         "bit-exact layout conformance is decided by the BITS rules when present in per_rule; otherwise not covered"),
+         "bit-exact layout conformance is decided by the BITS rules (per_rule); the shortest accepted input of every codec equals its wire size (BOUNDS.minlen), so a length guard made stricter is reported as well as one made weaker"),
  "C19": ("static analysis: linear-inequality abstract interpretation + must-write dataflow",
          "VLA.Unmarshal never panics on any input (one assumed obligation about a copied slice header) and resets every decoded field; VLA.Marshal's validation dominates its table indexing; payload writes rely on the requiredLen sum invariant (assumed, listed)",
-         "byte-exact conformance of the variable-length body and round-trip equality are not decided"),
+         "shortest accepted input (2 octets) is checked (BOUNDS.minlen); byte-exact conformance of the variable-length body and round-trip equality are not decided"),
  "C20": ("static analysis: flow-sensitive origin (alias) analysis",
          "every reference reachable from the value returned by Packet.Clone / Header.Clone is memory allocated inside Clone or nil, on every path (independence decided through its cause)",
-         "value equality of the copied bytes is not decided"),
+         "STRUCT.clone adds the necessary conditions of equality: every field written on every path (or nil in the original), from the same field, every fresh slice filled from the slice whose length it takes; byte equality itself is not decided"),
 }
 CLAIMED.update({k: tuple(v) for k, v in json.load(open('/verif/tools/claimed_extra.json')).items()})
 
